@@ -33,6 +33,26 @@ INV_DTYPE_LOOKUP = {
 }
 
 
+def _argument_to_json_like(arg, depth=0):
+    """Write a condition callable argument in JSON-like form.
+
+    A data path is written as a `{"path...": parts}` specification and a tuple as a list. At
+    the depths at which `ConditionLike.from_spec` looks for data path specifications, a
+    literal mapping that would be read as one is written with an escaped key.
+    """
+    if isinstance(arg, valida.datapath.DataPath):
+        return arg.to_spec()
+    elif isinstance(arg, (list, tuple)):
+        return [_argument_to_json_like(i, depth + 1) for i in arg]
+    elif isinstance(arg, dict):
+        arg = {k: _argument_to_json_like(v, depth + 1) for k, v in arg.items()}
+        if depth < 2 and len(arg) == 1:
+            key, val = next(iter(arg.items()))
+            if isinstance(key, str) and key.lower().split(".")[0] == "path":
+                arg = {"\\" + key: val}
+    return arg
+
+
 class PreparedConditionCallable:
     def __init__(self, func, *args, **kwargs):
         self._func = func
@@ -761,7 +781,7 @@ class Condition(ConditionLike):
                 f"{self.callable.kwargs!r} cannot be written in JSON form."
             )
 
-        out = {key: spec_val}
+        out = {key: _argument_to_json_like(spec_val)}
         if "shared_data" in kwargs:
             return out, kwargs["shared_data"]
         else:
